@@ -56,6 +56,8 @@ nextchar(struct scanner *s)
 		bufadd(&s->buf, s->chr);
 	for (;;) {
 		s->chr = getc(s->file);
+		if (s->chr == EOF && ferror(s->file))
+			fatal("read %s:", s->loc.file);
 		if (s->chr == '\n') {
 			++s->loc.line, s->loc.col = 0;
 			break;
